@@ -14,6 +14,11 @@ inside pandas is glue the model does not contain: it is reached only through gat
 All statements are for data sets of any size over any linearly ordered field.
 -/
 import ZepidVerif.Lemmas.Relabel
+import ZepidVerif.Lemmas.Msm
+import ZepidVerif.Lemmas.TmleFlip
+import ZepidVerif.Lemmas.IceInv
+import ZepidVerif.Lemmas.SurvGFFlip
+import ZepidVerif.Props.C12
 import ZepidVerif.Props.C07
 import Mathlib.Algebra.Order.Field.Rat
 import Mathlib.Tactic.NormNum
@@ -525,6 +530,253 @@ theorem tmle_ate_affine (c d : F) (q1 q0 mini maxi : F) :
       = c * (Gen.tmle_unit_unbound q1 mini maxi - Gen.tmle_unit_unbound q0 mini maxi) := by
   constructor <;> (simp only [Gen.tmle_unit_unbound]; ring)
 
+/-! ### The robust (GEE sandwich) standard errors of `IPTW.fit`
+
+`ZV.Ci.armMean / armVar / msmRD / msmRR / msmOR` (Model/Ci.lean) is the closed form of what the weighted GEE of the
+saturated marginal structural model `Y ~ A` reports (independence working correlation, robust covariance with every
+row its own cluster; DESIGN §3.2, measured against statsmodels by C06's gate K): the weighted arm means, their HC0
+variances, and the delta-method variance of RD (identity link), log RR (log link), log OR (logit link). -/
+
+/-- **msm_perm_invariant.**  Estimates and robust variances of the saturated MSM are functions of the row multiset
+    (the weight `_ipfw_` travels with its row). -/
+theorem msm_perm_invariant {l₁ l₂ : List (Ci.MRow F)} (h : l₁.Perm l₂) :
+    (∀ a, Ci.armMean l₁ a = Ci.armMean l₂ a ∧ Ci.armVar l₁ a = Ci.armVar l₂ a) ∧
+    Ci.msmRD l₁ = Ci.msmRD l₂ ∧ Ci.msmRR l₁ = Ci.msmRR l₂ ∧ Ci.msmOR l₁ = Ci.msmOR l₂ := by
+  have hm := Ci.armMean_perm h
+  have hv := Ci.armVar_perm h
+  exact ⟨fun a => ⟨hm a, hv a⟩, by simp only [Ci.msmRD, hm, hv], by simp only [Ci.msmRR, hm, hv],
+    by simp only [Ci.msmOR, hm, hv]⟩
+
+/-- **msm_flip.**  Recode `A ↦ 1 − A` (row weights unchanged: `iptw_weight_flip`): the two arm means and their
+    sandwich variances swap (so the GEE's intercept row is the other arm's); the risk difference is negated, the
+    risk ratio and the odds ratio are inverted, and the robust variance of RD, of log RR and of log OR — the square
+    of the reported `SE(RD)`, `SE(log(RR))`, `SE(log(OR))` — is unchanged.  No side condition. -/
+theorem msm_flip (rows : List (Ci.MRow F)) :
+    let rows' := rows.map Ci.flipM
+    (∀ a, Ci.armMean rows' (!a) = Ci.armMean rows a ∧ Ci.armVar rows' (!a) = Ci.armVar rows a) ∧
+    Ci.msmRD rows' = (-(Ci.msmRD rows).1, (Ci.msmRD rows).2) ∧
+    Ci.msmRR rows' = (((Ci.msmRR rows).1)⁻¹, (Ci.msmRR rows).2) ∧
+    Ci.msmOR rows' = (((Ci.msmOR rows).1)⁻¹, (Ci.msmOR rows).2) := by
+  intro rows'
+  have m1 : Ci.armMean rows' true = Ci.armMean rows false := Ci.armMean_flip rows false
+  have m0 : Ci.armMean rows' false = Ci.armMean rows true := Ci.armMean_flip rows true
+  have v1 : Ci.armVar rows' true = Ci.armVar rows false := Ci.armVar_flip rows false
+  have v0 : Ci.armVar rows' false = Ci.armVar rows true := Ci.armVar_flip rows true
+  refine ⟨fun a => ⟨Ci.armMean_flip rows a, Ci.armVar_flip rows a⟩, ?_, ?_, ?_⟩
+  · simp only [Ci.msmRD, m1, m0, v1, v0, Prod.mk.injEq]
+    exact ⟨by ring, add_comm _ _⟩
+  · simp only [Ci.msmRR, m1, m0, v1, v0, Prod.mk.injEq]
+    exact ⟨(inv_div _ _).symm, add_comm _ _⟩
+  · simp only [Ci.msmOR, m1, m0, v1, v0, Prod.mk.injEq]
+    exact ⟨(inv_div _ _).symm, add_comm _ _⟩
+
+/-- **msm_affine.**  Change of units `Y ↦ cY + d` of a continuous outcome (Gaussian family, identity link; weights
+    unchanged; both arms have non-zero total weight — what the fit itself needs): each arm mean becomes `c·m + d`,
+    each sandwich variance is multiplied by `c²`; the mean difference is multiplied by `c`, its robust variance by
+    `c²` (the reported `SE(ATE)` by `|c|`) and `d` drops out. -/
+theorem msm_affine (c d : F) (rows : List (Ci.MRow F)) (h1 : Ci.armW rows true ≠ 0) (h0 : Ci.armW rows false ≠ 0) :
+    let rows' := rows.map (Ci.affM c d)
+    (∀ a, Ci.armMean rows' a = c * Ci.armMean rows a + d ∧ Ci.armVar rows' a = c * c * Ci.armVar rows a) ∧
+    Ci.msmRD rows' = (c * (Ci.msmRD rows).1, c * c * (Ci.msmRD rows).2) := by
+  intro rows'
+  have hw : ∀ a, Ci.armW rows a ≠ 0 := fun a => by cases a <;> assumption
+  have hm := fun a => Ci.armMean_aff c d rows a (hw a)
+  have hv := fun a => Ci.armVar_aff c d rows a (hw a)
+  refine ⟨fun a => ⟨hm a, hv a⟩, ?_⟩
+  simp only [Ci.msmRD, rows', hm, hv, Prod.mk.injEq]
+  exact ⟨by ring, by ring⟩
+
+/-- **iptw_msm_relabel.**  The same three statements for `IPTW.fit` from the fitted probabilities on: the GEE's rows
+    are the rows with an observed outcome weighted by `_ipfw_` = generated `iptw_calculator` formula × missingness
+    weight × frequency weight (`Ci.msmRows l (iptwOmega …)`); its arm means are the Hájek means the other C08 / C01
+    theorems are about.  (i) row permutation; (ii) `A ↦ 1 − A` with fitted probabilities `n ↦ 1 − n`, `p ↦ 1 − p`,
+    missingness weights unchanged and the target renamed; (iii) `Y ↦ cY + d` with all fitted probabilities
+    unchanged. -/
+theorem iptw_msm_relabel (l : List (Row F)) (stab : Bool) (t : Tgt) (n p mw : Row F → F) :
+    let ω := iptwOmega stab t n p mw
+    (∀ a, Ci.armMean (Ci.msmRows l ω) a = hajek l ω a) ∧
+    (∀ l₂, l.Perm l₂ →
+      Ci.msmRD (Ci.msmRows l₂ ω) = Ci.msmRD (Ci.msmRows l ω) ∧ Ci.msmRR (Ci.msmRows l₂ ω) = Ci.msmRR (Ci.msmRows l ω) ∧
+      Ci.msmOR (Ci.msmRows l₂ ω) = Ci.msmOR (Ci.msmRows l ω)) ∧
+    (∀ n' p' mw' : Row F → F, (∀ r, n' (flipRow r) = 1 - n r) → (∀ r, p' (flipRow r) = 1 - p r) →
+      (∀ r, mw' (flipRow r) = mw r) →
+      let rows' := Ci.msmRows (l.map flipRow) (iptwOmega stab t.flip n' p' mw')
+      Ci.msmRD rows' = (-(Ci.msmRD (Ci.msmRows l ω)).1, (Ci.msmRD (Ci.msmRows l ω)).2) ∧
+      Ci.msmRR rows' = (((Ci.msmRR (Ci.msmRows l ω)).1)⁻¹, (Ci.msmRR (Ci.msmRows l ω)).2) ∧
+      Ci.msmOR rows' = (((Ci.msmOR (Ci.msmRows l ω)).1)⁻¹, (Ci.msmOR (Ci.msmRows l ω)).2)) ∧
+    (∀ (c d : F) (n' p' mw' : Row F → F), (∀ r, n' (affRow c d r) = n r) → (∀ r, p' (affRow c d r) = p r) →
+      (∀ r, mw' (affRow c d r) = mw r) →
+      Ci.armW (Ci.msmRows l ω) true ≠ 0 → Ci.armW (Ci.msmRows l ω) false ≠ 0 →
+      Ci.msmRD (Ci.msmRows (l.map (affRow c d)) (iptwOmega stab t n' p' mw'))
+        = (c * (Ci.msmRD (Ci.msmRows l ω)).1, c * c * (Ci.msmRD (Ci.msmRows l ω)).2)) := by
+  intro ω
+  refine ⟨fun a => Ci.armMean_msmRows l ω a, ?_, ?_, ?_⟩
+  · intro l₂ h
+    have := msm_perm_invariant (Ci.msmRows_perm h ω)
+    exact ⟨this.2.1.symm, this.2.2.1.symm, this.2.2.2.symm⟩
+  · intro n' p' mw' hn hp hmw rows'
+    have hω : ∀ r, iptwOmega stab t.flip n' p' mw' (flipRow r) = ω r := by
+      intro r
+      simp only [ω, iptwOmega, hn, hp, hmw]
+      show Gen.iptw_weight stab t.flip.str (!r.a) _ _ * _ = _
+      rw [iptw_weight_flip]
+    have e : rows' = (Ci.msmRows l ω).map Ci.flipM := Ci.msmRows_flip l ω _ hω
+    rw [e]
+    exact (msm_flip (Ci.msmRows l ω)).2
+  · intro c d n' p' mw' hn hp hmw h1 h0
+    have hω : ∀ r, iptwOmega stab t n' p' mw' (affRow c d r) = ω r := by
+      intro r
+      simp only [ω, iptwOmega, hn, hp, hmw]
+      rfl
+    rw [Ci.msmRows_aff c d l ω _ hω]
+    exact (msm_affine c d (Ci.msmRows l ω) h1 h0).2
+
+
+/-! ### TMLE: the whole targeting step under `A ↦ 1 − A`
+
+`ZV.Tmle` (Model/Tmle.lean) is `TMLE.fit` from the clever covariates on; `Props/C03_Gen.lean` proves the definition
+regenerated from the text of `TMLE.fit` equal to it (`Props/C08_Gen.lean` restates the theorem below for the generated
+definition).  The recoded problem has the same outcomes and the nuisance values of the recoded fits, `g1 ↔ g0`,
+`Q1 ↔ Q0` (`Tmle.flipT`; that the external fits deliver them is `score_reparam` + gate H).  With the code's clever
+covariates `H1 = A/g1`, `H0 = −(1−A)/g0` one gets `H1' = −H0`, `H0' = −H1`, `QAW' = QAW`: the fluctuation
+coefficients of the recoded problem are `(ε₁', ε₂') = (−ε₂, −ε₁)`.  `σ` (inverse logit) and `lg` (logit) are arbitrary
+functions here: nothing about them is used. -/
+
+/-- **tmle_flip_scores.**  `(ε₁, ε₂)` solves the two score equations of the fluctuation GLM for
+    `(A, Y, g1, g0, Q1, Q0)` iff `(−ε₂, −ε₁)` solves them for `(1 − A, Y, g0, g1, Q0, Q1)` (the two scores are
+    exchanged and change sign); the fluctuation model's own prediction of every row is unchanged and the two
+    targeted counterfactual predictions are exchanged, `Q*₁' = Q*₀`, `Q*₀' = Q*₁`. -/
+theorem tmle_flip_scores (σ lg : F → F) (e1 e2 : F) (l : List (Tmle.TRow F)) :
+    (Tmle.scoreH1 σ lg (-e2) (-e1) (l.map Tmle.flipT) = - Tmle.scoreH0 σ lg e1 e2 l ∧
+     Tmle.scoreH0 σ lg (-e2) (-e1) (l.map Tmle.flipT) = - Tmle.scoreH1 σ lg e1 e2 l) ∧
+    ((Tmle.scoreH1 σ lg e1 e2 l = 0 ∧ Tmle.scoreH0 σ lg e1 e2 l = 0) ↔
+     (Tmle.scoreH1 σ lg (-e2) (-e1) (l.map Tmle.flipT) = 0 ∧ Tmle.scoreH0 σ lg (-e2) (-e1) (l.map Tmle.flipT) = 0)) ∧
+    (∀ r, Tmle.h1 (Tmle.flipT r) = - Tmle.h0 r ∧ Tmle.h0 (Tmle.flipT r) = - Tmle.h1 r ∧
+      Tmle.qstarA σ lg (-e2) (-e1) (Tmle.flipT r) = Tmle.qstarA σ lg e1 e2 r ∧
+      Tmle.qstar1 σ lg (-e2) (Tmle.flipT r) = Tmle.qstar0 σ lg e2 r ∧
+      Tmle.qstar0 σ lg (-e1) (Tmle.flipT r) = Tmle.qstar1 σ lg e1 r) := by
+  have h1 := Tmle.scoreH1_flip σ lg e1 e2 l
+  have h0 := Tmle.scoreH0_flip σ lg e1 e2 l
+  refine ⟨⟨h1, h0⟩, ?_, fun r => ⟨Tmle.h1_flip r, Tmle.h0_flip r, Tmle.qstarA_flip σ lg e1 e2 r,
+    Tmle.qstar1_flip σ lg e2 r, Tmle.qstar0_flip σ lg e1 r⟩⟩
+  rw [h1, h0, neg_eq_zero, neg_eq_zero]
+  exact and_comm
+
+/-- **tmle_flip.**  Everything `TMLE.fit` reports for a binary outcome, at corresponding fluctuation coefficients
+    (`tmle_flip_scores`): the vector of targeted predictions under the observed treatment is unchanged, the two
+    counterfactual vectors are exchanged, the risk difference is negated, the risk ratio and the odds ratio are
+    inverted, and the three influence-curve standard errors — of RD, of log RR, of log OR — are unchanged (each
+    influence value changes sign row by row).  Missing outcomes (`obs = false`) included. -/
+theorem tmle_flip (σ lg : F → F) (e1 e2 : F) (l : List (Tmle.TRow F)) :
+    let f := Tmle.fitBinary σ lg e1 e2 l
+    let f' := Tmle.fitBinary σ lg (-e2) (-e1) (l.map Tmle.flipT)
+    f'.sA = f.sA ∧ f'.s1 = f.s0 ∧ f'.s0 = f.s1 ∧
+    f'.rd = - f.rd ∧ f'.rdSe = f.rdSe ∧ f'.rr = f.rr⁻¹ ∧ f'.rrSe = f.rrSe ∧ f'.or_ = f.or_⁻¹ ∧ f'.orSe = f.orSe :=
+  Tmle.fitBinary_flip σ lg e1 e2 l
+
+/-- **tmle_flip_continuous.**  Continuous outcome (bounded to the unit interval, mapped back with the generated
+    `tmle_unit_unbound`; the bounds `mini`, `maxi` do not depend on the treatment coding): the average treatment
+    effect is negated and its influence-curve standard error is unchanged. -/
+theorem tmle_flip_continuous (σ lg : F → F) (e1 e2 mini maxi : F) (l : List (Tmle.TRow F)) :
+    let f := Tmle.fitContinuous σ lg e1 e2 mini maxi l
+    let f' := Tmle.fitContinuous σ lg (-e2) (-e1) mini maxi (l.map Tmle.flipT)
+    f'.sA = f.sA ∧ f'.s1 = f.s0 ∧ f'.s0 = f.s1 ∧ f'.rd = - f.rd ∧ f'.rdSe = f.rdSe :=
+  Tmle.fitContinuous_flip σ lg e1 e2 mini maxi l
+
+
+/-! ### IterativeCondGFormula: the backward recursion under row permutation and recoding of the covariates
+
+`ZV.Ice.fit` (Model/Ice.lean) is `IterativeCondGFormula.fit`: backward sequential regression, pseudo-outcome =
+earlier prediction unless missing, prediction under the plan, NaN-skipping mean of the first prediction.  The
+sequential fits enter as the function `μ` (prediction of the step-`k` model at a treatment / covariate history). -/
+
+/-- **ice_perm_invariant.**  For any fitted function, the whole `fit` — estimate or rejection — is a function of the
+    multiset of individuals: a 1-d plan with the rows permuted, a 2-d plan whose rows travel with the individuals. -/
+theorem ice_perm_invariant (spec : Bool) (μ : List Bool → List Nat → F) (K : Nat) :
+    (∀ (g : List Bool) (rows₁ rows₂ : List Ice.WRow), rows₁.Perm rows₂ →
+      Ice.fit spec μ (.single g) rows₁ K = Ice.fit spec μ (.single g) rows₂ K) ∧
+    (∀ (p₁ p₂ : List (List Bool × Ice.WRow)), p₁.Perm p₂ →
+      Ice.fit spec μ (.matrix (p₁.map Prod.fst)) (p₁.map Prod.snd) K
+        = Ice.fit spec μ (.matrix (p₂.map Prod.fst)) (p₂.map Prod.snd) K) :=
+  ⟨fun g _ _ h => IceInv.fit_single_perm spec μ g h K, fun _ _ h => IceInv.fit_matrix_perm spec μ h K⟩
+
+/-- **ice_perm_invariant_cellfit.**  Two runs on permuted data, *each with its own sequential fits* `μ₁`, `μ₂`
+    (saturated models: each satisfies the cell score equations of its own data — the fits may differ off the plan
+    and in empty cells), under the hypotheses of `P12.ice_eq_npgformula` on the first data set: both return the
+    nonparametric g-formula value, which is computed from cell counts, hence the same number. -/
+theorem ice_perm_invariant_cellfit (μ₁ μ₂ : List Bool → List Nat → F) (g : List Bool) {rows₁ rows₂ : List Ice.WRow}
+    (h : rows₁.Perm rows₂) (K : Nat) (levels : List Nat) (hK : 0 < K) (hwf : Ice.wellFormed K rows₁ = true)
+    (hg : g.length = K) (hsurv : ∀ r ∈ rows₁, Ice.survType r.ys = true) (hnd : levels.Nodup)
+    (hcov : Ice.levelsCover levels rows₁ = true) (hpos : Ice.planPositive levels g rows₁ K = true)
+    (hfit₁ : Ice.IsCellFit μ₁ g rows₁ K) (hfit₂ : Ice.IsCellFit μ₂ g rows₂ K) :
+    Ice.fit true μ₂ (.single g) rows₂ K = Ice.fit true μ₁ (.single g) rows₁ K ∧
+    Ice.fit true μ₁ (.single g) rows₁ K = .ok (Ice.npg levels g rows₁ K) := by
+  have e1 := P12.ice_eq_npgformula μ₁ g rows₁ K levels hK hwf hg hsurv hnd hcov hfit₁ hpos
+  have e2 := P12.ice_eq_npgformula μ₂ g rows₂ K levels hK (by rw [← IceInv.wellFormed_perm h]; exact hwf) hg
+    (fun r hr => hsurv r (h.mem_iff.mpr hr)) hnd (by rw [← IceInv.levelsCover_perm h]; exact hcov) hfit₂
+    (by rw [← IceInv.planPositive_perm h]; exact hpos)
+  rw [e1, e2, IceInv.npg_perm h]
+  exact ⟨rfl, rfl⟩
+
+/-- the cell score equations themselves are permutation invariant: a fit of the data is a fit of the permuted data -/
+theorem ice_cellfit_perm (μ : List Bool → List Nat → F) (g : List Bool) {rows₁ rows₂ : List Ice.WRow}
+    (h : rows₁.Perm rows₂) (K : Nat) : Ice.IsCellFit μ g rows₁ K ↔ Ice.IsCellFit μ g rows₂ K :=
+  ⟨IceInv.isCellFit_perm h g μ K, IceInv.isCellFit_perm h.symm g μ K⟩
+
+/-- **ice_relabel_invariant.**  Recode the covariate values by an injective map at every time point (`φ k` at time
+    `k`, left inverse `ψ k`; `IceInv.relabelW φ` recodes an individual).  (i) For any fitted function `μ` the
+    recursion run on the recoded data with the corresponding fitted function (`μ` read through `ψ`) returns the
+    same value, for every plan; (ii) that function satisfies the cell score equations of the recoded data when `μ`
+    satisfies those of the original data; (iii) hence *any* saturated sequential fits `μ₂` of the recoded data give
+    the estimate of the original run, under the hypotheses of `P12.ice_eq_npgformula` on the original data (the
+    level list and positivity of the recoded data are derived, not assumed). -/
+theorem ice_relabel_invariant (φ ψ : Nat → Nat → Nat) (hψ : ∀ k l, ψ k (φ k l) = l)
+    (μ : List Bool → List Nat → F) (rows : List Ice.WRow) (K : Nat) :
+    (∀ spec plan, Ice.fit spec (IceInv.muRelab ψ μ) plan (rows.map (IceInv.relabelW φ)) K = Ice.fit spec μ plan rows K) ∧
+    (∀ g, Ice.IsCellFit μ g rows K → Ice.IsCellFit (IceInv.muRelab ψ μ) g (rows.map (IceInv.relabelW φ)) K) ∧
+    (∀ (μ₂ : List Bool → List Nat → F) (g : List Bool) (levels : List Nat), 0 < K → Ice.wellFormed K rows = true →
+      g.length = K → (∀ r ∈ rows, Ice.survType r.ys = true) → levels.Nodup → Ice.levelsCover levels rows = true →
+      Ice.planPositive levels g rows K = true → Ice.IsCellFit μ g rows K →
+      Ice.IsCellFit μ₂ g (rows.map (IceInv.relabelW φ)) K →
+      Ice.fit true μ₂ (.single g) (rows.map (IceInv.relabelW φ)) K = Ice.fit true μ (.single g) rows K) := by
+  refine ⟨fun spec plan => IceInv.fit_relab φ ψ hψ spec μ plan rows K,
+    fun g hf => IceInv.isCellFit_relab φ ψ hψ μ g rows K hf, ?_⟩
+  intro μ₂ g levels hK hwf hg hsurv hnd hcov hpos hfit hfit₂
+  have hwf' := IceInv.wellFormed_relab φ K rows hwf
+  have hsurv' : ∀ r ∈ rows.map (IceInv.relabelW φ), Ice.survType r.ys = true := by
+    intro r' hr'
+    obtain ⟨r, hr, rfl⟩ := List.mem_map.mp hr'
+    exact hsurv r hr
+  have hnd' := IceInv.relabLevels_nodup φ K levels
+  have hcov' := IceInv.levelsCover_relab φ K levels rows hwf hcov
+  have hpos' := IceInv.planPositive_relab φ ψ hψ g rows levels (IceInv.relabLevels φ K levels) hcov K hpos
+  rw [P12.ice_eq_npgformula μ₂ g _ K _ hK hwf' hg hsurv' hnd' hcov' hfit₂ hpos',
+    ← P12.ice_eq_npgformula (IceInv.muRelab ψ μ) g _ K _ hK hwf' hg hsurv' hnd' hcov'
+      (IceInv.isCellFit_relab φ ψ hψ μ g rows K hfit) hpos']
+  exact IceInv.fit_relab φ ψ hψ true μ (.single g) rows K
+
+
+/-! ### SurvivalGFormula under `A ↦ 1 − A` -/
+
+/-- **survival_flip.**  Recode the exposure of every person-period record (`SurvGF.flipL`: same id, time, outcome;
+    the two predictions of the recoded outcome model exchanged, `h1 ↔ h0`).  Treat-all in the new coding is treat-none
+    in the old one and the natural course stays the natural course (`Plan.flip`); every individual's predicted
+    cumulative incidence, the marginal curve at every time, its index, and the product-limit curve of the renamed arm
+    are unchanged.  (A custom plan is a condition chosen by the user in terms of the coding; it is excluded.) -/
+theorem survival_flip (p : SurvGF.Plan) (hp : p ≠ .custom) (rows : List (SurvGF.LRow F)) :
+    SurvGF.cumInc p.flip (rows.map SurvGF.flipL) = SurvGF.cumInc p rows ∧
+    (∀ t, SurvGF.marginalAt p.flip (rows.map SurvGF.flipL) t = SurvGF.marginalAt p rows t) ∧
+    SurvGF.marginal p.flip (rows.map SurvGF.flipL) = SurvGF.marginal p rows ∧
+    (∀ b t, SurvGF.productLimit (rows.map SurvGF.flipL) (!b) t = SurvGF.productLimit rows b t) := by
+  refine ⟨SurvGF.cumInc_flip p hp rows, SurvGF.marginalAt_flip p hp rows, ?_,
+    fun b t => SurvGF.productLimit_flip rows b t⟩
+  unfold SurvGF.marginal
+  rw [SurvGF.times_flip]
+  apply List.map_congr_left
+  intro t _
+  exact SurvGF.marginalAt_flip p hp rows t
+
+
 /-! ### Closed-form g-estimation of a structural nested mean model -/
 
 /-- **snm_affine.**  `ψ` solves the estimating equations `Σ w(A−π)V_k (Y − A Σ_j ψ_j V_j) = 0` for the outcome
@@ -725,6 +977,72 @@ example (q : Nat → Bool → ℚ) (c d : ℚ) :
 example : Gen.tmle_unit_bounds (F := ℚ) (-2 * 2 + 10) (-2 * 5 + 10) (-2 * 1 + 10) (1/2000) = 1 - 1/4 ∧
     Gen.tmle_unit_bounds (F := ℚ) 2 1 5 (1/2000) = 1/4 ∧ (1/2000 : ℚ) ≤ 1 - 1/2000 := by
   norm_num [Gen.tmle_unit_bounds]
+
+-- the GEE sandwich: a weighted two-arm data set (weights differ within an arm, so the variance is not a plain
+-- binomial one); recoded and re-expressed, with both arms of non-zero weight
+def exMsm : List (Ci.MRow ℚ) := [⟨true, 1, 2⟩, ⟨true, 0, 1⟩, ⟨false, 1, 1⟩, ⟨false, 0, 3⟩]
+example : Ci.msmRD exMsm = (5/12, 1753/10368) ∧ Ci.msmRD (exMsm.map Ci.flipM) = (-5/12, 1753/10368) ∧
+    Ci.msmRR exMsm = (8/3, 97/72) ∧ Ci.msmRR (exMsm.map Ci.flipM) = (3/8, 97/72) ∧
+    Ci.armW exMsm true ≠ 0 ∧ Ci.armW exMsm false ≠ 0 ∧
+    Ci.msmRD (exMsm.map (Ci.affM (-2) 7)) = (-5/6, 1753/2592) := by
+  norm_num [Ci.msmRD, Ci.msmRR, Ci.armMean, Ci.armVar, Ci.armW, Ci.arm, sumBy, exMsm, Ci.flipM, Ci.affM]
+example : exMsm.Perm exMsm.reverse ∧ (exMsm.reverse.map (·.a)) ≠ exMsm.map (·.a) := ⟨(List.reverse_perm _).symm, by decide⟩
+-- … and from the IPTW rows: unstabilized population weights at propensity 2/5 resp. 1/4 by stratum, one outcome missing
+example :
+    Ci.msmRows exRows (iptwOmega false Tgt.pop (fun _ => 1/2) (fun r => if r.s = 0 then 2/5 else 1/4) (fun _ => 1))
+      = [⟨true, 3, 5/2⟩, ⟨false, 1, 5/3⟩, ⟨true, 5, 8⟩, ⟨false, 2, 4/3⟩, ⟨false, 4, 4/3⟩, ⟨true, 1, 5/2⟩] := by
+  simp [Ci.msmRows, exRows, iptwOmega, Gen.iptw_weight, Tgt.str]
+  norm_num
+
+-- TMLE targeting under 1−A: g1 ≠ g0, Q1 ≠ Q0, one missing outcome; with σ = lg = id the coefficients
+-- (ε₁, ε₂) = (11/75, −9/50) solve both score equations, (−ε₂, −ε₁) = (9/50, −11/75) those of the recoded rows;
+-- RD = 1/6 becomes −1/6 and RR = 4/3 becomes 3/4
+def exT : List (Tmle.TRow ℚ) :=
+  [⟨true, true, 1, 3/10, 1/5, 2/5, 3/5⟩, ⟨true, true, 1, 3/10, 1/5, 2/5, 3/5⟩, ⟨true, true, 0, 3/10, 1/5, 2/5, 3/5⟩,
+   ⟨false, true, 1, 3/10, 1/5, 2/5, 3/5⟩, ⟨false, true, 0, 3/10, 1/5, 2/5, 3/5⟩,
+   ⟨true, false, 0, 3/10, 1/5, 2/5, 3/5⟩]
+example : Tmle.scoreH1 id id (11/75) (-9/50) exT = 0 ∧ Tmle.scoreH0 id id (11/75) (-9/50) exT = 0 ∧
+    Tmle.scoreH1 id id (9/50) (-11/75) (exT.map Tmle.flipT) = 0 ∧
+    Tmle.scoreH0 id id (9/50) (-11/75) (exT.map Tmle.flipT) = 0 := by
+  simp only [Tmle.scoreH1, Tmle.scoreH0, exT, Tmle.flipT, Tmle.obsRows, List.filter, List.map, sumBy, Tmle.qstarA,
+    Tmle.h1, Tmle.h0, Tmle.qa, Tmle.ind, id]
+  norm_num
+example : Tmle.rdOf (Tmle.targets id id (11/75) (-9/50) exT) = 1/6 ∧
+    Tmle.rdOf (Tmle.targets id id (9/50) (-11/75) (exT.map Tmle.flipT)) = -1/6 ∧
+    Tmle.rrOf (Tmle.targets id id (11/75) (-9/50) exT) = 4/3 ∧
+    Tmle.rrOf (Tmle.targets id id (9/50) (-11/75) (exT.map Tmle.flipT)) = 3/4 := by
+  simp only [Tmle.rdOf, Tmle.rrOf, Tmle.risk1Of, Tmle.risk0Of, Tmle.mean, Tmle.targets, exT, Tmle.flipT, List.map,
+    List.length, sumBy, Tmle.qstar1, Tmle.qstar0, id]
+  norm_num
+
+-- ICE: the two-period data set of `Props/C12.lean` (hypotheses of `ice_eq_npgformula` shown there), reversed, and
+-- with the covariate recoded 0 ↦ 7 at time 0 and 0 ↔ 1 at time 1; the saturated fit of the original data read
+-- through the inverse recoding is a saturated fit of the recoded data, and the estimate 4/5 is unchanged
+def exPhi : Nat → Nat → Nat := fun k l => if k = 0 then l + 7 else if l = 0 then 1 else if l = 1 then 0 else l
+def exPsi : Nat → Nat → Nat := fun k l => if k = 0 then l - 7 else if l = 0 then 1 else if l = 1 then 0 else l
+theorem exPsiPhi : ∀ k l, exPsi k (exPhi k l) = l := by
+  intro k l
+  unfold exPsi exPhi
+  by_cases hk : k = 0
+  · simp [hk]
+  · by_cases h0 : l = 0
+    · simp [hk, h0]
+    · by_cases h1 : l = 1
+      · simp [hk, h1]
+      · simp [hk, h0, h1]
+example : P12.exRows.Perm P12.exRows.reverse ∧ P12.exRows.reverse ≠ P12.exRows :=
+  ⟨(List.reverse_perm _).symm, by decide⟩
+example : (P12.exRows.map (IceInv.relabelW exPhi)).map (·.ls) = [[7, 1], [7, 1], [7, 0], [7, 0], [7, 1], [7, 1]] := by
+  decide
+example : Ice.IsCellFit (IceInv.muRelab exPsi P12.exMu) [true, true] (P12.exRows.map (IceInv.relabelW exPhi)) 2 ∧
+    Ice.fit true (IceInv.muRelab exPsi P12.exMu) (.single [true, true]) (P12.exRows.map (IceInv.relabelW exPhi)) 2
+      = .ok (4 / 5) :=
+  ⟨(ice_relabel_invariant exPhi exPsi exPsiPhi P12.exMu P12.exRows 2).2.1 _ P12.exFit, by decide +kernel⟩
+
+-- SurvivalGFormula: the person-period example of `Props/C12.lean` recoded; treat-all there = treat-none here = 2/3 at t = 2
+example : SurvGF.marginalAt (F := ℚ) .none (P12.exLong.map SurvGF.flipL) 2 = 2/3 ∧
+    SurvGF.marginalAt (F := ℚ) .all P12.exLong 2 = 2/3 ∧ SurvGF.marginalAt (F := ℚ) .none P12.exLong 2 = 0 := by
+  decide +kernel
 
 -- g-estimation: a data set whose exposure model (intercept only, π = 1/2) satisfies its score equation; ψ = 2
 def exSnm : List (SnmR.SRow ℚ) := [⟨true, 3, 1, 1/2, fun _ => 1⟩, ⟨false, 1, 1, 1/2, fun _ => 1⟩]
